@@ -210,4 +210,91 @@ theorem isoparse_sound_core (cfg : Option Nat) (s : Bytes) (v : Result) (h : iso
                 hch, hcm, hcs, hcu]
               simp [← hd.2.2.2.1]
       · rw [if_neg hsepc] at h; cases h
+theorem timeWF_of (tf : TimeForm) (xt : Fields) (hscan : TimeScan tf xt)
+    (hrange : ((timeShown tf xt).1 ≤ 23 ∧ (timeShown tf xt).2.1 ≤ 59 ∧ (timeShown tf xt).2.2.1 ≤ 59) ∨
+      ((timeShown tf xt).1 = 24 ∧ (timeShown tf xt).2.1 = 0 ∧ (timeShown tf xt).2.2.1 = 0 ∧
+        (timeShown tf xt).2.2.2 = 0)) : timeWF tf xt = true := by
+  obtain ⟨htf, _, _, _, hfr⟩ := hscan
+  simp only [timeWF, Bool.and_eq_true, Bool.or_eq_true, decide_eq_true_eq]
+  refine ⟨hrange, ?_⟩
+  cases hf : tf.hasFrac
+  · simp
+  · obtain ⟨hne, h9⟩ := hfr hf
+    simp only [Bool.not_true, Bool.false_or, Bool.and_eq_true, bne_iff_ne, ne_eq, List.all_eq_true,
+      decide_eq_true_eq]
+    exact Or.inr ⟨hne, h9⟩
+
+/-- COMPLETE soundness of `parse_isotime` -/
+theorem parseIsotimeEntry_sound (s : Bytes) (c : TComps) (h : parseIsotimeEntry s = .ok c) :
+    ∃ (tf : TimeForm) (o : OffForm) (x : Fields), tf ≠ .none ∧ timeWF tf x = true ∧ offWF o x = true ∧
+      s = renderTime tf x ++ renderOff o x ∧
+      c = { h := if (timeShown tf x).1 = 24 then 0 else ((timeShown tf x).1 : Int),
+            m := (timeShown tf x).2.1, s := (timeShown tf x).2.2.1, us := (timeShown tf x).2.2.2,
+            tz := offDenote o x } := by
+  unfold parseIsotimeEntry at h
+  cases ht : parseIsotime s with
+  | error e => simp [ht, bind, Except.bind] at h
+  | ok c0 =>
+    simp only [ht, bind, Except.bind] at h
+    obtain ⟨tf, xt, o, xo, hscan, how, et, hc, h24rule⟩ := parseIsotime_inv s c0 ht
+    have hch : c0.h = ((timeShown tf xt).1 : Int) := by rw [hc]; rfl
+    have hcm : c0.m = ((timeShown tf xt).2.1 : Int) := by rw [hc]; rfl
+    have hcs : c0.s = ((timeShown tf xt).2.2.1 : Int) := by rw [hc]; rfl
+    have hcu : c0.us = ((timeShown tf xt).2.2.2 : Int) := by rw [hc]; rfl
+    have hctz : c0.tz = offDenote o xo := by rw [hc]
+    let xd : Fields := { year := 0 }
+    have fin : ∀ (hW : timeWF tf xt = true),
+        ∃ (tf : TimeForm) (o : OffForm) (x : Fields), tf ≠ .none ∧ timeWF tf x = true ∧ offWF o x = true ∧
+        s = renderTime tf x ++ renderOff o x ∧
+        ({ c0 with h := if c0.h = 24 then 0 else c0.h } : TComps) =
+          { h := if (timeShown tf x).1 = 24 then 0 else ((timeShown tf x).1 : Int),
+            m := (timeShown tf x).2.1, s := (timeShown tf x).2.2.1, us := (timeShown tf x).2.2.2,
+            tz := offDenote o x } := by
+      intro hW
+      refine ⟨tf, o, mergeF xd xt xo, hscan.1, by rw [timeWF_merge]; exact hW, by rw [offWF_merge]; exact how,
+        by rw [renderTime_merge, renderOff_merge]; exact et, ?_⟩
+      simp only [timeShown_merge, offDenote_merge, hctz, hcm, hcs, hcu, hch]
+      by_cases h24 : (timeShown tf xt).1 = 24
+      · simp [h24]
+      · have : ¬ ((timeShown tf xt).1 : Int) = 24 := by omega
+        simp [h24, this]
+    by_cases h24 : c0.h = 24
+    · obtain ⟨z1, z2, z3⟩ := h24rule h24
+      simp only [h24, if_true] at h fin
+      split at h
+      · cases h
+        exact fin (timeWF_of tf xt hscan (Or.inr ⟨by omega, by omega, by omega, by omega⟩))
+      · cases h
+    · simp only [h24, if_false] at h fin
+      split at h
+      · rename_i hr
+        cases h
+        exact fin (timeWF_of tf xt hscan (Or.inl ⟨by omega, by omega, by omega⟩))
+      · cases h
+
+/-- the separator byte of a form without a time part is irrelevant -/
+theorem sep_irrelevant (f : IsoForm) (x : Fields) (c : Nat) (h : f.time = .none) :
+    WFields { f with sep := c } x = WFields f x ∧ render { f with sep := c } x = render f x ∧
+    denote { f with sep := c } x = denote f x := by
+  obtain ⟨df, tf, o, sep⟩ := f
+  simp only at h; subst h
+  exact ⟨rfl, rfl, rfl⟩
+
+/-- with a configured (non-digit) separator, the accepted strings are EXACTLY the renderings of
+    well-formed fields with that separator, and the value is the denotation -/
+theorem isoparse_accepts_iff (c : Nat) (hc : isDigit c = false) (s : Bytes) (v : Result) :
+    isoparse (some c) s = .ok v ↔
+      ∃ f x, WFields f x ∧ f.sep = c ∧ s = render f x ∧ v = denote f x := by
+  constructor
+  · intro h
+    obtain ⟨f, x, hW, hs, er, ev⟩ := isoparse_sound_core (some c) s v h
+    by_cases ht : f.time = .none
+    · obtain ⟨e1, e2, e3⟩ := sep_irrelevant f x c ht
+      exact ⟨{ f with sep := c }, x, by rw [e1]; exact hW, rfl, by rw [e2]; exact er, by rw [e3]; exact ev⟩
+    · rcases hs ht with h0 | h0
+      · cases h0
+      · exact ⟨f, x, hW, by injection h0 with h0; exact h0.symm, er, ev⟩
+  · rintro ⟨f, x, hW, rfl, rfl, rfl⟩
+    exact isoparse_render_core f x (some f.sep) hW (fun _ => hc) (Or.inr rfl)
+
 end Iso
